@@ -292,3 +292,51 @@ def run(ck):
         if nd['k'] == 'VarDecl' and nd.get('n') == 'result' and 'init' in nd:
             res_init = declref(ep, nd['init'], ep.params[1]['d']) is not None
     ck.ob('C10.split', 'C10.split/poly-constant-term', res_init, ep.loc(), 'evaluate_polynomial starts from the constant term (p(0) = secret byte)')
+
+    # ---- N1: memory safety and termination of split / combine for every secret, threshold and share count ---------------------------
+    from sa.absint2 import Analyzer, summarize, report
+    from sa.lin import Lin
+    SH = 'ephemeralnet::crypto::'
+    sites, info = {}, {'throws': []}
+    reads = {'exp': [0, None], 'log': [0, None]}
+    for entry in ('Shamir::split', 'Shamir::combine'):
+        an = Analyzer(P, inline=lambda q: q.startswith(SH))
+        an.watch_index = lambda b: b.startswith(('buf_exp_table', 'buf_log_table'))
+        an.run(P.fn(SH + entry))
+        info['throws'] += an.throws
+        for key, e in summarize(an).items():
+            cur = sites.get(key)
+            if cur is None:
+                sites[key] = e
+            else:
+                cur['n'] += e['n']
+                cur['failed'] += e['failed']
+        # the power table is filled for exponents 0..254 (and mirrored above); the log table has no entry for 0:
+        # every read must stay inside what the field arithmetic defines
+        for r in an.index_log:
+            which = 'exp' if r['buf'].startswith('buf_exp_table') else 'log'
+            reads[which][0] += 1
+            idx, st = r['idx'], r['state']
+            ok = isinstance(idx, Lin) and (st.cons.entails_le(idx - 509) and st.cons.entails_le(-idx) if which == 'exp' else st.cons.entails_le(Lin.const(1) - idx))
+            if which == 'exp' and ok and r['fn'].q.endswith(('gf_mul', 'gf_div')):
+                ok = st.cons.entails_le(idx - 254)
+            if not ok and reads[which][1] is None:
+                reads[which][1] = (r['fn'], r['node'], idx)
+    for which, text in (('exp', 'gf_mul / gf_div read the power table only at exponents 0..254 (the range build_exp_table fills from the generator)'),
+                        ('log', 'the log table is never read at index 0 (log 0 is undefined; zero operands are handled before the lookup)')):
+        n_, bad_ = reads[which]
+        ck.ob('C10.table', 'C10.table/%s-read-range' % which, bad_ is None and n_ > 0, bad_[0].loc(bad_[1]) if bad_ else '',
+              '%s (%d read states%s)' % (text, n_, '' if bad_ is None else '; index %r not in range' % (bad_[2],)))
+    report(ck, 'C10', sites)
+    # no state survives a call: the tables are const statics, nothing else is static / thread_local
+    for f in P.fns:
+        if not f.file.endswith('Shamir.cpp'):
+            continue
+        st_ = [i for i in f.walk() if f.nodes[i]['k'] == 'VarDecl' and f.nodes[i].get('static') and not f.nodes[i].get('const') and not f.nodes[i].get('constexpr')]
+        if st_ or f.q.endswith(('split', 'combine', 'interpolate', 'gf_div', 'gf_mul', 'evaluate_polynomial')):
+            ck.ob('C10.pure', 'C10.pure/' + f.q.split('::')[-1], not st_, f.loc(st_[0]) if st_ else f.loc(),
+                  '%s keeps no mutable static / thread_local state between calls%s' % (f.q.split('::')[-1], (' — found `%s`' % f.nodes[st_[0]].get('n')) if st_ else ''))
+    ck.floor('C10.bound', 'memory-access obligations in Shamir split/combine and the GF(256) helpers', len([1 for e in sites.values() if e['kind'] == 'bound']), 25)
+    ck.floor('C10.loop', 'loops in Shamir split/combine and the GF(256) helpers', len([1 for e in sites.values() if e['kind'] == 'loop']), 10)
+    bad = sorted({t for _f, _n, t in info['throws'] if t != 'std::invalid_argument'})
+    ck.ob('C10.throw', 'C10.throw/typed', not bad, '', 'split and combine refuse bad parameters with std::invalid_argument only (other thrown types: %s)' % (bad or 'none'))
